@@ -6,6 +6,8 @@
 
 mod checks;
 mod core;
+mod fixture;
+mod proj;
 
 use crate::core::{Ctx, Tier};
 
